@@ -113,7 +113,7 @@ def check(rep, tier, seed, driver):
         else:
             cases.append(u.gen_case(rng, tier))
     for case in cases:
-        case = {"cfg": case["cfg"], "ops": case["ops"]}
+        case = {k_: case[k_] for k_ in ("cfg", "ops", "reuse", "relay") if k_ in case}
         try:
             res = u.run_impl(case)
         except Exception as e:  # noqa
